@@ -8,7 +8,7 @@ from core import enc_list, enc_table
 from props import c05
 
 PID = 'C03'
-MODULES = ['FFVerif.Proofs.C03']
+MODULES = ['FFVerif.Proofs.C03', 'FFVerif.Proofs.C03Reverse']
 RANGE_ONLY = ['simple', 'rainflow', 'rangepair', 'fourpoint']
 REVERSIBLE = ['simple', 'rainflow', 'fourpoint', 'rychlik']
 
@@ -114,12 +114,12 @@ def run(tier, seed):
     n = 400 if tier == 'quick' else 8000
     ex = (6, 3) if tier == 'quick' else (8, 4)
     explore(res, random.Random(seed), n, exhaustive=ex)
-    res.notes.append('time reversal of rainflow / four-point / Rychlik is NOT a theorem (C03.ReverseStatement is a def): '
-                     'tested on all histories of length <= %d over %d values plus the random ones' % ex)
+    res.notes.append('all histories of length <= %d over %d values enumerated in addition for the reversal clause (a test; the clause is '
+                     'also a theorem: C03_reverse in Proofs/C03Reverse.lean)' % ex)
     res.extra['proved_clauses'] = ['insertion/repetition (all nine functions, incl. default level grid)', 'offset (all)',
                                    'positive scale (all)', 'negation (simple, rainflow, range-pair, four-point)',
-                                   'time reversal (simple-range)']
-    res.extra['tested_only_clauses'] = ['time reversal (rainflow, four-point, Rychlik)']
+                                   'time reversal (simple-range, rainflow, four-point, Rychlik: confluence of four-point extraction)']
+    res.extra['tested_only_clauses'] = []
     if res.proof_problems and not res.failures:
         explore(res, random.Random(seed + 7919), 4 * n)
     res.disagreements_checked = res.evaluations
